@@ -38,7 +38,7 @@ type mixEntry struct {
 var propMix = map[string][]mixEntry{
 	"C01": {{"did", "c01", 3}, {"mixed", "c01", 4}, {"staking", "c01", 3}, {"authz", "c01", 2}, {"timeout", "c01", 1}},
 	"C03": {{"staking", "c03", 6}, {"mixed", "c03", 3}},
-	"C02": {{"mixed", "c01", 1}, {"mixed", "c03", 1}, {"mixed", "", 3}, {"long", "", 3}, {"timeout", "", 1}, {"staking", "", 1}, {"authz", "", 1}, {"capacity", "", 1}},
+	"C02": {{"mixed", "c01", 1}, {"mixed", "c03", 1}, {"mixed", "", 3}, {"long", "", 3}, {"timeout", "", 1}, {"staking", "", 1}, {"authz", "", 1}, {"capacity", "", 1}, {"crowd", "", 1}},
 	"C04": {{"mixed", "", 5}, {"long", "", 2}, {"timeout", "", 1}},
 	"C05": {{"timeout", "", 4}, {"mixed", "", 3}},
 	"C06": {{"mixed", "", 4}, {"long", "", 2}, {"reward", "", 2}},
@@ -50,7 +50,7 @@ var propMix = map[string][]mixEntry{
 	"C12": {{"timeout", "", 6}, {"mixed", "", 2}},
 	"C13": {{"mixed", "", 6}, {"timeout", "", 2}, {"long", "", 1}},
 	"C14": {{"mixed", "", 6}, {"timeout", "", 2}, {"long", "", 1}},
-	"C15": {{"mixed", "", 4}, {"timeout", "", 3}, {"staking", "", 1}},
+	"C15": {{"mixed", "", 4}, {"timeout", "", 3}, {"staking", "", 1}, {"crowd", "", 1}},
 	"C16": {{"authz", "", 3}, {"mixed", "", 3}, {"timeout", "", 2}},
 	"C17": {{"did", "", 7}, {"mixed", "", 1}},
 	"C18": {{"mixed", "c18", 4}, {"faults", "c18", 3}, {"staking", "c18", 2}, {"did", "c18", 1}, {"timeout", "c18", 1}},
